@@ -171,11 +171,51 @@ def judge(t, tw, s, sw, vals, rng, acc=None):
     return found
 
 
+def extras():
+    """Trees the universe does not have: an alias whose name contains a line break (the
+    representor prints alias names raw) at depth 1 and 2."""
+    from ..universe import INT
+    two = ("alias", "Two\nLines", ("dict", (("k", False, INT),), False))
+    return [("dict", (("a", False, two),), False), ("list", ("typed", ("alias", "Two\nLines", INT)), ()),
+            ("list", ("elems", (("dict", (("b", True, two),), True),)), ())]
+
+
+def deep_pairs():
+    """(built-in tree, the same tree with EVERY level wrapped in the same custom class), eight
+    levels deep through typed lists, dict values, element lists, any alternatives and aliases."""
+    from ..universe import INT, NONE, S
+    t = tw = S("int", ("min", 0), ("max", 7))
+    shapes = [lambda x: ("list", ("typed", x), (("len", 1),)), lambda x: ("dict", (("a", False, x),), False),
+              lambda x: ("list", ("elems", (x,)), ()), lambda x: ("any", (x, NONE)),
+              lambda x: ("alias", "L", x), lambda x: ("dict", (("a", True, x), ("b", False, INT)), True),
+              lambda x: ("list", ("elems", (x, Ellipsis)), ()), lambda x: ("list", ("typed", x), ())]
+    out = []
+    for i, mk in enumerate(shapes):
+        t, tw = mk(t), ("fwd", mk(("fwd", tw) if i == 0 else tw))
+        if i >= 4:
+            out.append((t, tw))
+    return out
+
+
 def worker(shard, nshards, tier, seed):
     acc = Acc()
     rng = e2.Scripted(seed)
     with e2.installed(rng):
-        U = [t for t in universe(tier) if depth(t) <= MAXDEPTH[tier]]
+        if shard == 0:
+            for t, tw in deep_pairs():
+                s, _ = try_build(t)
+                sw, err = try_build(tw)
+                if s is None or sw is None:
+                    acc.violation(f"C16|deeply-nested-tree-does-not-build:{type(err).__name__}",
+                                  {"term": src(t), "wrapped": src(tw)})
+                    continue
+                vals, _ = value_universe(t, VLIM[tier])
+                acc.count("wrapped_trees")
+                acc.count("deeply_nested_trees")
+                for sig, detail in judge(t, tw, s, sw, vals, rng, acc):
+                    acc.violation(sig, {"term": src(t), "wrapped": src(tw), "wrapped_show": show(tw),
+                                        "detail": detail, "tier": tier})
+        U = [t for t in universe(tier) if depth(t) <= MAXDEPTH[tier]] + extras()
         for i, t in shard_items(U, shard, nshards):
             s, _ = try_build(t)
             if s is None:
